@@ -1,0 +1,100 @@
+//go:build verif
+
+// Contracts for the lungovc verification-condition generator (/verif).
+// This file is comment-only; it is never part of a normal build.
+
+package bsonkit
+
+// ---------------------------------------------------------------------------
+// inspect.go
+
+//@ func Inspect
+//@   tags C12
+//@   requires spec.wf1(v)
+//@   ensures [C12] result0 == spec.class(v)
+//@   ensures [C12] result1 == spec.btype(v)
+
+// ---------------------------------------------------------------------------
+// compare.go
+
+//@ func Compare
+//@   tags C12
+//@   uses cmp wf
+//@   requires spec.wfVal(lv) && spec.wfVal(rv)
+//@   decreases 2*(spec.size(lv) + spec.size(rv)) + 1
+//@   ensures [C12] result == spec.cmp(lv, rv)
+//@ func compareNumbers
+//@   tags C12
+//@   requires spec.class(lv) == 1 && spec.class(rv) == 1
+//@   ensures [C12 name=exact] result == spec.cmpNum(lv, rv)
+//@   ensures [C12 name=finite] imp(spec.numFinite(lv) && spec.numFinite(rv) && !spec.floatDecPair(lv, rv), result == spec.cmpNum(lv, rv))
+//@ func compareStrings
+//@   tags C12
+//@   requires is(lv, VStr) && is(rv, VStr)
+//@   ensures [C12] result == spec.strcmp(spec.str(lv), spec.str(rv))
+//@ func compareDocuments
+//@   tags C12
+//@   uses cmp wf
+//@   requires spec.wfVal(lv) && spec.wfVal(rv) && is(lv, VDoc) && is(rv, VDoc)
+//@   decreases 2*(spec.size(lv) + spec.size(rv))
+//@   ensures [C12] result == spec.cmpDoc(spec.doc(lv), spec.doc(rv))
+//@   loop 0 invariant i <= len(l) && i <= len(r)
+//@   loop 0 invariant forall(j, 0, i, spec.cmpElem(l[j], r[j]) == 0)
+//@ func compareArrays
+//@   tags C12
+//@   uses cmp wf
+//@   requires spec.wfVal(lv) && spec.wfVal(rv) && is(lv, VArr) && is(rv, VArr)
+//@   decreases 2*(spec.size(lv) + spec.size(rv))
+//@   ensures [C12] result == spec.cmpArr(spec.arr(lv), spec.arr(rv))
+//@   loop 0 invariant i <= len(l) && i <= len(r)
+//@   loop 0 invariant forall(j, 0, i, spec.cmp(l[j], r[j]) == 0)
+//@ func compareBinaries
+//@   tags C12
+//@   requires is(lv, VBin) && is(rv, VBin)
+//@   ensures [C12] result == spec.cmpBin(spec.bin(lv), spec.bin(rv))
+//@ func compareObjectIDs
+//@   tags C12
+//@   requires is(lv, VOid) && is(rv, VOid)
+//@   ensures [C12] result == spec.cmpOid(spec.oid(lv), spec.oid(rv))
+//@ func compareBooleans
+//@   tags C12
+//@   requires is(lv, VBool) && is(rv, VBool)
+//@   ensures [C12] result == spec.cmpBool(spec.bool(lv), spec.bool(rv))
+//@ func compareDates
+//@   tags C12
+//@   requires is(lv, VDate) && is(rv, VDate)
+//@   ensures [C12] result == spec.cmpI64(spec.date(lv), spec.date(rv))
+//@ func compareTimestamps
+//@   tags C12
+//@   requires is(lv, VTs) && is(rv, VTs)
+//@   ensures [C12] result == spec.cmpTs(spec.ts(lv), spec.ts(rv))
+//@ func compareRegexes
+//@   tags C12
+//@   requires is(lv, VRegex) && is(rv, VRegex)
+//@   ensures [C12] result == spec.cmpRegex(spec.regex(lv), spec.regex(rv))
+//@ func compareInt32s
+//@   tags C12
+//@   ensures [C12] result == spec.cmpI32(l, r)
+//@ func compareInt64s
+//@   tags C12
+//@   ensures [C12] result == spec.cmpI64(l, r)
+//@ func compareFloat64s
+//@   tags C12
+//@   ensures [C12] result == spec.cmpF64(l, r)
+//@ func compareInt64ToFloat64
+//@   tags C12
+//@   ensures [C12] result == spec.cmpQ(spec.q_ofI64(l), spec.q_ofF64(r))
+//@ func compareFloat64ToInt64
+//@   tags C12
+//@   ensures [C12] result == spec.cmpQ(spec.q_ofF64(l), spec.q_ofI64(r))
+
+// ---------------------------------------------------------------------------
+// math.go
+
+//@ func safeFloatToDec
+//@   tags C12 C11
+//@   ensures [C12] result == ite(spec.f64_kind(f) == 0, spec.dec_shortest(f), spec.dec_zero)
+//@ func safeD128ToDec
+//@   trusted
+//@   pure
+//@   ensures result == ite(spec.d128_kind(d) == 0, spec.dec_ofD128(d), spec.dec_zero)
